@@ -58,6 +58,10 @@ type LAssertion struct {
 	Sign    *SigOpts // own enveloped signature
 	Encrypt *EncOpts // delivered as EncryptedAssertion
 
+	// ExtraAttrs: further attributes the producer writes on the genuine element of that local name
+	// (SubjectConfirmationData, Conditions, ProxyRestriction, AuthnStatement), e.g. xml:NotOnOrAfter
+	ExtraAttrs map[string][][2]string
+
 	// Twins: a non-conforming producer writes, right after a genuine element, an element of the same
 	// local name in a namespace that is not SAML's (extension content in the wrong place).
 	Twins []LTwin
